@@ -50,3 +50,8 @@ func TestProp(t *testing.T) {
 func TestReplay(t *testing.T) {
 	core.Replay(t, map[string]func(Case) core.Result{"main": Run})
 }
+
+// FuzzGen: coverage-guided search over the same generated cases (thorough tier).
+func FuzzGen(f *testing.F) {
+	core.FuzzProp(f, "main", genCase, Run)
+}
